@@ -1,0 +1,12 @@
+//go:build verif
+
+// Contracts for package jwsutil (comment-only; read by /verif/govc).
+
+package jwsutil
+
+//@ func VerifyJWS(jwsStr, jwk, opts) (ret, err)
+//@   pure
+
+//@ func ParseJWS(jwsStr, opts) (ret, err)
+//@   pure
+//@   ensures [nonnil] err == nil ==> ret != nil
